@@ -60,12 +60,29 @@ pub fn run_all(reset_of: fn(usize, &Value) -> Value) {
             let w = std::thread::spawn(move || {
                 let _ = stdin.write_all(input.as_bytes());
             });
+            // a behaviour that does not end (code under test that deadlocks) is data, not a tool failure: the child is killed
+            // after VH_CHILD_TIMEOUT seconds and its trace ends with a crash line saying so
+            let hung = Arc::new(std::sync::atomic::AtomicBool::new(false));
+            let (pid, hung2) = (ch.id(), hung.clone());
+            let limit = std::env::var("VH_CHILD_TIMEOUT").ok().and_then(|s| s.parse().ok()).unwrap_or(60u64);
+            let (done_tx, done_rx) = std::sync::mpsc::channel::<()>();
+            let wd = std::thread::spawn(move || {
+                if let Err(std::sync::mpsc::RecvTimeoutError::Timeout) = done_rx.recv_timeout(std::time::Duration::from_secs(limit)) {
+                    hung2.store(true, Ordering::SeqCst);
+                    let _ = Command::new("kill").arg("-9").arg(pid.to_string()).status();
+                }
+            });
             let mut out = String::new();
-            ch.stdout.take().unwrap().read_to_string(&mut out).unwrap();
+            let _ = ch.stdout.take().unwrap().read_to_string(&mut out);
             let _ = w.join();
             let st = ch.wait().unwrap();
+            let _ = done_tx.send(());
+            let _ = wd.join();
+            if !out.is_empty() && !out.ends_with('\n') {
+                out.push('\n');
+            }
             if !st.success() {
-                out.push_str(&serde_json::to_string(&json!({"ev": "crash", "status": format!("{:?}", st)})).unwrap());
+                out.push_str(&serde_json::to_string(&json!({"ev": "crash", "hang": hung.load(Ordering::SeqCst), "status": format!("{:?}", st)})).unwrap());
                 out.push('\n');
             }
             results.lock().unwrap()[i] = Some(out);
